@@ -53,6 +53,12 @@ def generate(seed):
         docs.append({"a": 1, "b": [1, 2], "c": "x"})
     if not any(isinstance(d, list) for d in docs):
         docs.append([1, "a", {"a": 1}, 2.5])
+    if r.random() < 0.5:
+        # a "type zoo": values that are == but of different types
+        zoo = [True, 1, 1.0, 0, False, 0.0, "1", None, "", [], {}]
+        r.shuffle(zoo)
+        docs.append(zoo[: r.randint(4, len(zoo))] if r.random() < 0.6 else {k: v for k, v in zip("abcdefghijk", zoo)})
+    knobs["dtype_heavy"] = r.random() < 0.2
     ctx = g.context(docs)
 
     init = []
@@ -63,7 +69,15 @@ def generate(seed):
         if c < 0.15:
             init.append(("null",))
         elif kind == "value":
-            init.append(g.value_leaf(ctx))
+            if knobs["dtype_heavy"] and r.random() < 0.6:
+                tn = ["int", "bool", "float", "str", "NoneType"]
+                init.append(r.choice([
+                    ("leaf", "Value.dtype", "equal_to", (("ty", r.choice(tn)),), ()),
+                    ("leaf", "Value", "is_instance", tuple(("ty", n) for n in r.sample(tn, r.randint(1, 2))), ()),
+                    ("leaf", "Value.dtype", "in_", (("tyl", tuple(r.sample(tn, r.randint(1, 3)))),), ()),
+                ]))
+            else:
+                init.append(g.value_leaf(ctx))
         elif kind == "key":
             init.append(g.key_leaf(ctx))
         else:
